@@ -43,15 +43,18 @@ type c18File struct {
 	Steps    []c18Step     // interleaved: the history
 	Src      reflect.Value // interleaved: the rows in the order they are handed to the writers (Rows is in file order)
 	Plain    []byte        // the same rows and configuration written without encryption (baseline)
+	Form     *c18Form      // how options and encryption setting are handed to the writer (c18_options.go)
+	encCfg   *parquet.EncryptionConfig
 }
 
 func (c *c18File) desc() string {
-	return fmt.Sprintf("%s|%s|%s|path=%s|batches=%v|blooms=%v|deferred=%v|steps=%v", c.E.Name, c.Cfg.Desc, c.Enc.Desc(), c.Path, c.Batches, c.Blooms, c.Deferred, c.Steps)
+	return fmt.Sprintf("%s|%s|%s|path=%s|batches=%v|blooms=%v|deferred=%v|steps=%v|form=%v", c.E.Name, c.Cfg.Desc, c.Enc.Desc(), c.Path, c.Batches, c.Blooms, c.Deferred, c.Steps, c.Form)
 }
 
 func (c *c18File) detail(extra map[string]any) map[string]any {
 	m := map[string]any{"type": c.E.Name, "config": c.Cfg.Desc, "encryption": c.Enc.Desc(), "writer_path": c.Path,
-		"batches": c.Batches, "bloom_filters": c.Blooms, "deferred_bloom": c.Deferred, "rows": c.Texts, "history": fmt.Sprint(c.Steps)}
+		"batches": c.Batches, "bloom_filters": c.Blooms, "deferred_bloom": c.Deferred, "rows": c.Texts, "history": fmt.Sprint(c.Steps),
+		"option_form": c.Form.String() + " (options[:k] as functional options or folded into a &WriterConfig{} literal, the encryption setting as WithEncryption or as the Encryption field, options[k:] likewise or as the result of NewWriterConfig; fold-all: NewWriterConfig(everything) is the only option)"}
 	if len(c.Texts) > 30 {
 		m["rows"] = append(append([]string{}, c.Texts[:30]...), fmt.Sprintf("... %d rows, regenerate with the run seed", len(c.Texts)))
 	}
@@ -247,8 +250,9 @@ func c18WriteWith(c *c18File, opts []parquet.WriterOption, r *rand.Rand) (out []
 
 func (c *c18File) opts(encrypted bool) []parquet.WriterOption {
 	opts := append([]parquet.WriterOption{}, c.Cfg.Opts...)
+	var tail []parquet.WriterOption
 	if c.Path == "begin-rowgroup" || c.Path == "interleaved" {
-		opts = append(opts, parquet.MaxRowsPerRowGroup(0)) // a BeginRowGroup writer refuses more rows than the limit
+		tail = append(tail, parquet.MaxRowsPerRowGroup(0)) // a BeginRowGroup writer refuses more rows than the limit
 	}
 	if len(c.Blooms) > 0 {
 		var fs []parquet.BloomFilterColumn
@@ -260,10 +264,14 @@ func (c *c18File) opts(encrypted bool) []parquet.WriterOption {
 			opts = append(opts, parquet.DeferBloomFiltersWithBuffers(parquet.NewBufferPool()))
 		}
 	}
+	var enc *parquet.EncryptionConfig
 	if encrypted {
-		opts = append(opts, parquet.WithEncryption(c.Enc.Config()))
+		if c.encCfg == nil {
+			c.encCfg = c.Enc.Config()
+		}
+		enc = c.encCfg
 	}
-	return opts
+	return c.Form.build(opts, enc, tail)
 }
 
 // c18NewFile draws a case and writes the encrypted file and its unencrypted twin.
@@ -305,6 +313,7 @@ func c18NewFile(r *rand.Rand, e *gen.Entry, path string) (*c18File, error, error
 		}
 	}
 	c.Deferred = len(c.Blooms) > 0 && r.Intn(4) == 0
+	c.Form = c18RandForm(r, len(c.Cfg.Opts)+min(len(c.Blooms), 1)+map[bool]int{true: 1}[c.Deferred])
 	var sh gen.Shredder
 	for i := 0; i < n; i++ {
 		c.Texts = append(c.Texts, sh.ShredRow(e.Schema, rows.Index(i)))
@@ -570,6 +579,12 @@ func c18RoundtripCase(ctx *core.Ctx, r *rand.Rand, e *gen.Entry, path string, sa
 		}
 	}
 	batch := []int{1, 2, 7, 64, 1000}[r.Intn(5)]
+	ctx.Hist("option_form", fmt.Sprintf("before=%s enc=%s after=%s", c.Form.Before, c.Form.Enc, c.Form.After))
+	// 0a. whatever the spelling of the options, encryption was asked for
+	if c18LooksUnencrypted(c.Data) {
+		fail("encryption-request-ignored "+c18CarrierClass(c.opts(true), c.encCfg), "the options ask for encryption (form "+c.Form.String()+") and the writer produced an ordinary unencrypted parquet file, without any error", nil)
+		return
+	}
 	// 0. the independent walker (stdlib AES-GCM, harness AAD) must open every module and the modules must tile the file
 	if layErr != nil {
 		lib := "not tried"
